@@ -43,7 +43,7 @@ impl Prop for C07 {
         300
     }
     fn cases(&self, t: Tier) -> usize {
-        t.pick(80_000, 3_000_000)
+        t.pick(400_000, 3_000_000)
     }
     fn generate(&self, t: &mut Tape) -> Case {
         let mut g = MutGen::new(t);
